@@ -179,7 +179,7 @@ def c_timeout(g1: int, g2: int, g3: int, s_us: int) -> str:
             devs.append('timeout-callback-although-silence-within-lifetime')
         if all_short and s_us > 2 * L_US and len(h.timeouts) == before:
             devs.append('no-timeout-callback-after-two-lifetimes-of-silence')
-        if loop.livelock or loop.exc:
+        if loop.livelock or loop.errors():
             devs.append('loop-error')
         loop.create_task(c.close())
         loop.run_ready()
